@@ -139,6 +139,62 @@ fn hmc(n: usize, seed: Option<u64>) -> Value {
     json!({"e": "fp", "kind": "HMC", "n": n, "seed": seed.map(|s| s.to_string()).unwrap_or("none".into()), "acc": uu, "prop": mom, "accasprop": Vec::<String>::new(), "after": after})
 }
 
+/// Standard Gaussian in any dimension (batched): large HMC batches (n_chains x dim in the tens of thousands).
+#[derive(Clone)]
+struct StdGaussBatch;
+impl<B: burn::tensor::backend::AutodiffBackend> mini_mcmc::distributions::BatchedGradientTarget<f32, B> for StdGaussBatch {
+    fn unnorm_logp_batch(&self, x: burn::tensor::Tensor<B, 2>) -> burn::tensor::Tensor<B, 1> {
+        let n = x.dims()[0];
+        x.powi_scalar(2).sum_dim(1).mul_scalar(-0.5).reshape([n])
+    }
+}
+fn short_fp(v: &[f64]) -> String {
+    let mut h: u64 = 0xcbf29ce484222325;
+    for x in v {
+        for b in x.to_bits().to_le_bytes() {
+            h ^= b as u64;
+            h = h.wrapping_mul(0x100000001b3);
+        }
+    }
+    format!("{h:016x}/{}", v.len())
+}
+fn hmc_big(n: usize, d: usize, seed: Option<u64>) -> Value {
+    let mut s = HMC::<f32, B32, _>::new(StdGaussBatch, vec![vec![0.25f32; d]; n], 0.05, 2);
+    if let Some(sd) = seed {
+        s = s.set_seed(sd);
+    }
+    let rows: Rc<RefCell<Vec<String>>> = Default::default();
+    let us: Rc<RefCell<Vec<String>>> = Default::default();
+    let (r2, u2) = (rows.clone(), us.clone());
+    mini_mcmc::verif::set_sink(Some(Box::new(move |name, ints, f| {
+        if name == "hmc_begin" && r2.borrow().is_empty() {
+            let (nc, d) = (ints[0] as usize, ints[1] as usize);
+            for c in 0..nc {
+                r2.borrow_mut().push(short_fp(&f[nc * d + c * d..nc * d + (c + 1) * d]));
+            }
+        }
+        if name == "hmc_u" && u2.borrow().is_empty() {
+            for u in f {
+                u2.borrow_mut().push(vec_fp(&[*u]));
+            }
+        }
+    })));
+    let r = catch(|| {
+        for _ in 0..2 {
+            s.step();
+        }
+        s.positions.clone().into_data().convert::<f64>().to_vec::<f64>().unwrap()
+    });
+    mini_mcmc::verif::set_sink(None);
+    let after: Vec<String> = match r {
+        Ok(p) => (0..n).map(|c| short_fp(&p[c * d..(c + 1) * d])).collect(),
+        Err(e) => vec![format!("panic {e}"); 2],
+    };
+    let mom = rows.borrow().clone();
+    let uu = us.borrow().clone();
+    json!({"e": "fp", "kind": format!("HMC dim {d}"), "n": n, "seed": seed.map(|s| s.to_string()).unwrap_or("none".into()), "acc": uu, "prop": mom, "accasprop": Vec::<String>::new(), "after": after})
+}
+
 fn nuts(n: usize, seed: Option<u64>) -> Value {
     let tgt = DiffableGaussian2D::<f32>::new([0.0, 0.0], [[1.0, 0.2], [0.2, 1.0]]);
     let mut s = NUTS::<f32, B32, _>::new(tgt, vec![vec![0.25f32, -0.5]; n], 0.8);
@@ -169,6 +225,16 @@ pub fn record(args: &[String]) {
                     Ok(v) => out.push(&v),
                     Err(e) => out.push(&json!({"e": "panic", "n": n, "seed": sd.map(|s| s.to_string()).unwrap_or("none".into()), "msg": e})),
                 }
+            }
+        }
+    }
+    // large HMC batches: tens of thousands of momentum components per step
+    let big: Vec<(usize, usize)> = if thorough { vec![(64, 256), (2, 8192), (33, 1000), (64, 1024), (3, 40000)] } else { vec![(64, 256), (2, 8192), (33, 1000)] };
+    for (n, d) in big {
+        for sd in [None, Some(42u64), Some(u64::MAX)] {
+            match catch(|| hmc_big(n, d, sd)) {
+                Ok(v) => out.push(&v),
+                Err(e) => out.push(&json!({"e": "panic", "n": n, "seed": sd.map(|s| s.to_string()).unwrap_or("none".into()), "msg": e})),
             }
         }
     }
